@@ -1,7 +1,8 @@
 (* FdModel.v — the descriptor I/O functions of json_util.c as written (C20):
    _json_object_to_fd / json_object_to_fd / json_object_to_file_ext (the write loop) and
    json_object_from_fd_ex / json_object_from_fd / json_object_from_file (read into a
-   print buffer, then ONE json_tokener_parse_ex call).
+   print buffer, then json_tokener_parse_ex on the accumulated bytes and, when that ends in
+   json_tokener_continue without a value, ONE more call on the terminating NUL).
 
    The operating system is a transfer schedule: the k-th entry says what the k-th
    read()/write() call does.  [Short n]: the call transfers min(n, what was asked for /
@@ -15,7 +16,9 @@
    * the serializer — json_object_to_json_string_ext is C02's business; the write side
      takes its result ([None] = it returned NULL);
    * the tokener — json_tokener_parse_ex is C01's business; the read side takes
-     [parse : depth -> bytes -> option value] ([None] = NULL with an error);
+     a [tokener] oracle: the outcome of the first call for (depth, bytes) — a value, "continue",
+     or an error — and, for the continue case, the outcome of the second call on the single
+     byte 0 with the same tokener; [parse2] is the two-step function the C code performs;
    * printbuf_memappend — by C19 (PbProofs.step_spec, fitting_request_served) a
      successful append IS list append and a refused one leaves the buffer unchanged, so the
      accumulated buffer is a plain [list byte] extended with [++]; whether an append
@@ -133,8 +136,9 @@ Record rout := mkrout {
   r_obj : jv;                           (* returned pointer; JNull = NULL *)
   r_msg : rmsg;
   r_reads : Z;                          (* number of read() calls *)
-  r_parsed : option (Z * list byte);    (* depth of the tokener and the bytes of the ONE
-                                           json_tokener_parse_ex call; None = not called *)
+  r_parsed : option (Z * list byte * Z);(* depth of the tokener, the bytes of the first
+                                           json_tokener_parse_ex call, number of calls (1, or 2
+                                           when the NUL was handed over); None = not called *)
   r_live : Z                            (* print buffer + tokener still allocated at return *)
 }.
 
@@ -142,11 +146,32 @@ Inductive rres :=
 | RRet (o : rout)
 | ROutOfSchedule (pb : list byte) (calls : Z).
 
+(* The tokener as an oracle.  [tk_first depth bytes]: what json_tokener_parse_ex(tok, bytes, len)
+   does on a fresh tokener of that depth — returns a value with success ([PVal v]; [PVal JNull] is
+   the text "null": NULL with json_tokener_success), returns NULL with json_tokener_continue
+   ([PContinue]: a number or literal that nothing follows, or an unfinished text), or NULL with
+   an error ([PError]).  [tk_nul depth bytes]: what the SECOND call, on the one byte 0 (the NUL
+   printbuf keeps behind its contents), returns with the tokener left by a first call that
+   answered continue. *)
+Inductive pres := PVal (v : jv) | PContinue | PError.
+Record tokener := mktokener { tk_first : Z -> list byte -> pres; tk_nul : Z -> list byte -> option jv }.
+
+(*  obj = json_tokener_parse_ex(tok, pb->buf, printbuf_length(pb));
+    if (obj == NULL && json_tokener_get_error(tok) == json_tokener_continue)
+        obj = json_tokener_parse_ex(tok, pb->buf + printbuf_length(pb), 1);
+   result ([None] = NULL) and number of calls *)
+Definition parse2 (parse : tokener) (depth : Z) (bytes : list byte) : option jv * Z :=
+  match tk_first parse depth bytes with
+  | PVal v => (Some v, 1)
+  | PError => (None, 1)
+  | PContinue => (tk_nul parse depth bytes, 2)
+  end.
+
 (* json_object_from_fd_ex.  printbuf_new is taken to succeed (allocation failure is C08);
    json_tokener_new_ex fails exactly for depth < 1 (same proviso).  The resource count
    follows the release statements of each return path as written: +1 printbuf_new,
    +1 json_tokener_new_ex, -1 json_tokener_free, -1 printbuf_free. *)
-Definition object_from_fd_ex (parse : Z -> list byte -> option jv) (app_ok : Z -> Z -> bool)
+Definition object_from_fd_ex (parse : tokener) (app_ok : Z -> Z -> bool)
                              (sched : list xfer) (data : list byte) (in_depth : Z) : rres :=
   let live := 1 in                                      (* pb = printbuf_new() *)
   let depth := if in_depth =? -1 then JSON_TOKENER_DEFAULT_DEPTH else in_depth in
@@ -159,11 +184,11 @@ Definition object_from_fd_ex (parse : Z -> list byte -> option jv) (app_ok : Z -
     | LAppendFail _ c => RRet (mkrout JNull MAppend c None (live - 1 - 1))
     | LErr _ c => RRet (mkrout JNull MRead c None (live - 1 - 1))
     | LEof pb c =>
-        (* obj = json_tokener_parse_ex(tok, pb->buf, printbuf_length(pb)) *)
-        let obj := match parse depth pb with Some v => v | None => JNull end in
+        let '(r, ncalls) := parse2 parse depth pb in
+        let obj := match r with Some v => v | None => JNull end in
         (* if (obj == NULL) set_last_err — also taken by a successfully parsed "null" *)
         let msg := match obj with JNull => MParse | _ => MNone end in
-        RRet (mkrout obj msg c (Some (depth, pb)) (live - 1 - 1))
+        RRet (mkrout obj msg c (Some (depth, pb, ncalls)) (live - 1 - 1))
     end.
 
 Definition object_from_fd parse app_ok sched data : rres :=
